@@ -2202,6 +2202,8 @@ def _lt(token: TokenT, left: object, right: object) -> bool:
 def _contains(token: TokenT, left: object, right: object) -> bool:
     if isinstance(left, str):
         return _safe_str(right) in left
+    if isinstance(left, range):
+        return _in_range(left, right)
     if isinstance(left, Collection):
         try:
             return right in left
@@ -2214,6 +2216,21 @@ def _contains(token: TokenT, left: object, right: object) -> bool:
         f"and '{right.__class__.__name__}'",
         token=token,
     )
+
+
+def _in_range(rng: range, item: object) -> bool:
+    """Membership without the scan of the whole range that `in` does for anything
+    but an `int`."""
+    if isinstance(item, (float, Decimal)):
+        try:
+            whole = int(item)
+        except (ValueError, OverflowError):
+            # nan or inf
+            return False
+        if whole != item:
+            return False
+        item = whole
+    return isinstance(item, int) and int(item) in rng
 
 
 def _to_liquid_string(val: Any, *, auto_escape: bool = False) -> str:
